@@ -113,7 +113,7 @@ class Gen:
         self.feat = dict(bits=True, data=True, marker=True, regex=True, eos=True, ref=True, refsel=True, seq=True, opt=True,
                          move=True, em=True, clsopts=True, lambdas=True, offset_atoms=False, codegen_opts=False,
                          begins_ref=True, defaults=True, regex_excl=False, shared_selector=True, generic_unpack=False, neg_moves=False,
-                         move_rate=0.15)
+                         move_rate=0.15, opt_rate=1.2)
         if features:
             self.feat.update(features)
 
@@ -322,7 +322,7 @@ class Gen:
         fields = pc['fields']
         while i < n:
             kind = self.pick([('elem', 6), ('bits', 1.2 if (self.feat['bits'] and pc['align'] is None) else 0),
-                              ('seq', 2 if self.feat['seq'] else 0), ('opt', 1.2 if (self.feat['opt'] and ints) else 0),
+                              ('seq', 2 if self.feat['seq'] else 0), ('opt', self.feat.get('opt_rate', 1.2) if (self.feat['opt'] and ints) else 0),
                               ('em', 0.3 if self.feat['em'] else 0)])
             mv = self.move([j for j in ints if j not in wide]) if (self.feat['move'] and rng.random() < self.feat['move_rate']) else None    # a two-byte target means 60 KB of fill bytes per case
             if kind == 'bits':
@@ -364,7 +364,13 @@ class Gen:
             elif kind == 'opt':
                 el = self.elem(ints, cid, depth)
                 w = self.cond_expr(ints)
-                fields.append({'move': mv, 'body': ('opt', el, (w, self.how_cond(w)), None)})
+                dflt = None
+                if self.feat['defaults'] and el[0] == 'leaf' and rng.random() < 0.3:
+                    # a declared default is what a CONSTRUCTED packet holds; a parse with a false condition still gives None
+                    dflt = rng.randrange(1, 5) if el[1][0] == 'int' else (b'dflt'[:rng.randrange(1, 5)] if el[1][0] in ('dsized', 'dmarker', 'deos', 'dregex') else None)
+                    if el[1][0] == 'dsized' and el[1][2] == 'const':
+                        dflt = (b'dfltdfltdfltdfltdfltdflt')[:el[1][1][1]] if el[1][1][1] > 0 else None
+                fields.append({'move': mv, 'body': ('opt', el, (w, self.how_cond(w)), dflt)})
             else:
                 fields.append({'move': mv, 'body': ('em',)})
             i += 1
